@@ -452,12 +452,14 @@ Debit(next) ==
     /\ gh' = [gh EXCEPT !.out = @ + op.tot]
     /\ op' = [op EXCEPT !.pc = next]
     /\ Silent /\ OpUnch /\ UNCHANGED <<wq, etx>>
+\* an ETX is backed when exactly its value + fee was taken from the emitter (MAXU is a symbol, not a number)
+Backed(r) == r.val # MAXU /\ r.fee \notin {MAXU, BIG} /\ r.deb = r.val + r.fee
 EtxRec(k, val, fee, deb) ==
     [k |-> k, from |-> op.self, to |-> op.c.dest, val |-> val, fee |-> fee, deb |-> deb, idx |-> NEtx(etx)]
 AppendEtx(r) ==
     /\ etx' = Append(etx, r)
     /\ op' = [op EXCEPT !.pc = "done", !.exit = "ok", !.status = 1, !.pushed = 1,
-                        !.dev = IF r.k \in {"ETX", "CONVERT"} /\ r.deb # r.val + r.fee THEN "prefork-wrap" ELSE "-"]
+                        !.dev = IF r.k \in {"ETX", "CONVERT"} /\ ~Backed(r) THEN "prefork-wrap" ELSE "-"]
     /\ Silent /\ OpUnch /\ UNCHANGED <<bal, wq, gh>>
 
 \* ------------------------------------------------------------------ opETX (core/vm/instructions.go)
@@ -681,7 +683,7 @@ TxEnd(used) ==
            /\ blockOut' = IF ok THEN blockOut \o EtxViews(etx) ELSE blockOut
            /\ survAll' = IF ok \/ "create-codestore-oog" \in devs THEN survAll \o EtxViews(etx) ELSE survAll
            /\ bdevs' = IF ~ok /\ etx # <<>> THEN bdevs \cup (devs \cap {"create-codestore-oog"}) ELSE bdevs
-           /\ Log(Rec("txend", tx.payer, "-", 0, used, tx.p, [k |-> tx.kind, lim |-> tx.g]) @@
+           /\ Log(Rec("txend", tx.payer, "-", 0, used, tx.p, [k |-> tx.kind, lim |-> tx.g, dropped |-> IF ok THEN 0 ELSE Len(etx)]) @@
                      [res |-> tx.status, out |-> IF ok THEN EtxViews(etx) ELSE <<>>],
                   MkObs(b2, 0, wq, lock, IF ok THEN 1 ELSE 0, -1, "end"), 1)
     /\ sui' = {} /\ etx' = <<>> /\ tx' = Idle
@@ -792,7 +794,7 @@ NoCreation == Q <= gh.sum0
 ExactUnlessBurn == Q + gh.burnt = gh.sum0
 \* every recorded ETX carries exactly what was debited for it (fails only for the pre-fork wrapping debit)
 EtxBacked == \A i \in 1..Len(etx) :
-    (etx[i].k \in {"ETX", "CONVERT", "XCALL"} /\ etx[i].deb # etx[i].val + etx[i].fee)
+    (etx[i].k \in {"ETX", "CONVERT", "XCALL"} /\ ~Backed(etx[i]))
         => (etx[i].k \o "/prefork-wrap") \in devs \cup {op.kind \o "/" \o "prefork-wrap"}
 
 LastRec == hist[Len(hist)]
@@ -828,6 +830,7 @@ AllOrNothingStrict ==
     OpIsDone =>
         \/ /\ op.status = 1 /\ DEtx = 1
            /\ etx[Len(etx)].idx = op.etx0 + Prefill                              \* fresh index = position
+           /\ etx[Len(etx)].val # MAXU
            /\ DAsset = -(etx[Len(etx)].val + etx[Len(etx)].fee)
         \/ /\ op.status = 0 /\ DEtx = 0 /\ DAsset = 0
 
